@@ -4,6 +4,7 @@
 From Coq Require Import List ZArith Bool Permutation.
 From RtoscV Require Ports.NameModel.
 From RtoscV Require Import Save.TopoModel Save.KahnProofs Save.TopoProofs Save.TopoEdges Save.TopoPerm Save.TopoTree Save.TopoRegress.
+From RtoscV Require Save.DeclModel Save.DeclProofs.
 From RtoscV Require Import Save.SaveModel Save.SaveProofs Save.RoundFull Save.CommuteProofs Save.PermApp.
 Import ListNotations.
 
@@ -170,3 +171,12 @@ Theorem C13_cyclic_metadata_scan_does_not_end :
   scan_deps apropos_ex4 [p_son; p_sp] 200 p_son p_son = Some [p_sp] /\
   scan_deps apropos_ex4 [p_son; p_sp] 200 p_sp p_sp = Some [p_son].
 Proof. exact cyclic_metadata_scan_does_not_end. Qed.
+
+(* `declared` - the hypothesis of C13_perm_invariant and of C12's sorted pipeline - is
+   decidable for a finite application and a lookup function: the tie evaluates
+   [declared_b a (apropos_of_tree root)] on every generated application (model driver) *)
+Theorem C13_declared_computed : forall a apropos,
+  (DeclModel.declared_b a apropos = true -> declared a apropos) /\
+  ((forall i j, (j < length a)%nat -> must_precede a i j -> (i < length a)%nat) ->
+   declared a apropos -> DeclModel.declared_b a apropos = true).
+Proof. exact (fun a ap => conj (DeclProofs.declared_b_sound a ap) (DeclProofs.declared_b_complete a ap)). Qed.
